@@ -1502,7 +1502,9 @@ impl AllowedRange {
     #[must_use]
     /// Return true if the value is present in the allowed range.
     pub fn contains(&self, value: i64) -> bool {
-        self.min <= value && value < self.max
+        // The range is half-open, so an upper bound of i64::MAX (as used by `no_check`) would
+        // otherwise exclude i64::MAX itself.
+        self.min <= value && (value < self.max || self.max == i64::MAX)
     }
 
     /// Returns how far we're outside the allowed range.
